@@ -1,8 +1,9 @@
 (* Property C11 — farm lifecycle conserves funds and respects owners and limits.
    Statements only; proofs in Proofs/FarmProofs.v, Proofs/AtomicProofs.v.
-   Known classes outside these theorems (genuine defects of the unchanged tree, see known_findings.json):
-   zero creation fee in a denom different from the reward denom (Props/Findings.v, F_zero_fee), and
-   max_concurrent_farms > 100 (the fetch is clamped to 100 entries). *)
+   The funds theorem is stated for the code after the repair `fix: create_farm with a zero creation fee accepts
+   exactly the farm asset` (before it, a zero fee in another denom made [reward] rejected and [reward, junk]
+   accepted; recorded as fixed in known_findings.json). Known class outside these theorems (genuine defect, see
+   known_findings.json): max_concurrent_farms > 100 (the fetch is clamped to 100 entries, F-clamp). *)
 From MD.Model Require Import Base Ownable Epoch PoolMath Types PoolManager FarmManager Chain.
 From MD.Proofs Require Import ChainProofs AtomicProofs WeightProofs FarmProofs.
 
@@ -41,7 +42,7 @@ Proof. exact validate_farm_epochs_spec. Qed.
 
 (* what must be attached and where it goes: exactly reward + fee when the fee is in the reward denom; otherwise
    exactly the reward plus a fee coin, the fee to the fee collector and any overpayment of the fee back to the
-   sender; so the farm manager keeps exactly the reward (fee > 0, or fee denom = reward denom) *)
+   sender; with no fee due exactly the reward; so the farm manager always keeps exactly the reward *)
 Theorem C11_creation_takes_reward_plus_fee : forall cfg sender funds asset fee_msgs,
   let fee := fm_create_fee cfg in
   0 <= amount_of fee -> 0 <= amount_of asset ->
@@ -51,9 +52,9 @@ Theorem C11_creation_takes_reward_plus_fee : forall cfg sender funds asset fee_m
    (exists d, funds = [(d, amount_of asset + amount_of fee)] /\ d = denom_of asset) /\
    fee_msgs = (if 0 <? amount_of fee then [plain (MBankSend (fm_fee_collector cfg) [fee])] else []))
   \/
-  (denom_of fee <> denom_of asset /\ List.length funds = 2%nat /\
+  (denom_of fee <> denom_of asset /\ List.length funds = (if (amount_of fee =? 0)%Z then 1%nat else 2%nat) /\
    (exists sent, find (fun c => String.eqb (denom_of c) (denom_of asset)) funds = Some sent /\ amount_of sent = amount_of asset) /\
-   (amount_of fee = 0 -> fee_msgs = []) /\
+   (amount_of fee = 0 -> fee_msgs = [] /\ exists d, funds = [(d, amount_of asset)] /\ d = denom_of asset) /\
    (0 < amount_of fee ->
       exists paidc, find (fun c => String.eqb (denom_of c) (denom_of fee)) funds = Some paidc /\
         amount_of fee <= amount_of paidc /\
